@@ -64,6 +64,18 @@ func PipelineFromFile(file string, opts ...PipelineOption) (*Pipeline, error) {
 		return nil, err
 	}
 
+	// `inputs: [~]`, `languages: [~]`: yaml decodes null list entries as nil pointers
+	for i, input := range pipeline.Inputs {
+		if input == nil {
+			return nil, fmt.Errorf("inputs[%d] is empty", i)
+		}
+	}
+	for i, language := range pipeline.Output.Languages {
+		if language == nil {
+			return nil, fmt.Errorf("output.languages[%d] is empty", i)
+		}
+	}
+
 	for _, opt := range opts {
 		opt(pipeline)
 	}
